@@ -23,7 +23,8 @@ void MatrixPreprocess(matrix *orig,
       for(j = 0; j < orig->col; j++){
         for(i = 0; i < orig->row; i++){
           if(FLOAT_EQ(orig->data[i][j], MISSING, 1e-1)){
-            continue;
+            /* a missing value carries no information: centre of the column */
+            trans->data[i][j] = 0.f;
           }
           else{
             trans->data[i][j] = orig->data[i][j] - colaverage->data[j];
@@ -93,7 +94,13 @@ void MatrixPreprocess(matrix *orig,
     if(colaverage->size > 0){
       for(j = 0; j < trans->col; j++){
         for(i = 0; i < trans->row; i++){
-          trans->data[i][j] = orig->data[i][j] - colaverage->data[j];
+          if(FLOAT_EQ(orig->data[i][j], MISSING, 1e-1)){
+            /* as in the fitting branch */
+            trans->data[i][j] = 0.f;
+          }
+          else{
+            trans->data[i][j] = orig->data[i][j] - colaverage->data[j];
+          }
         }
       }
     }
